@@ -212,4 +212,50 @@ theorem falseRule_hyps (cl s) (h : falseRule cl = .ok s) : s.hyps = [] := by
   try dsimp only at h
   rule_hyps h
 
+theorem eqReflexive_sound (I : Interp) (cl s) (h : eqReflexive cl = .ok s) : s.holds I := by
+  unfold eqReflexive at h
+  rule_sound h
+
+theorem laDisequality_sound (I : Interp) (hI : I.LeOrder) (cl s) (h : laDisequality cl = .ok s)
+    (hk : wellKinded .laDisequality cl [] = true) : s.holds I := by
+  unfold laDisequality at h
+  repeat' (split at h <;> try contradiction)
+  all_goals (cases h)
+  all_goals (simp only [Seq.holds]; intro _)
+  all_goals (rw [← tr_stripDisj I])
+  all_goals (simp_all [wellKinded])
+  all_goals (have := hI.antisymm; try grind)
+
+theorem laRwEq_core (I : Interp) (hI : I.LeOrder) (t u : Tm) :
+    ev I (mkEq t u) = ev I (mkAnd (mkLe t u) (mkLe u t)) := by
+  simp only [ev, evAcc, evApp]
+  have h1 := hI.antisymm (evAcc I t []) (evAcc I u [])
+  by_cases he : evAcc I t [] = evAcc I u []
+  · simp [he, hI.refl]
+  · have h3 : ¬ (I.le (evAcc I t []) (evAcc I u []) = true ∧ I.le (evAcc I u []) (evAcc I t []) = true) :=
+      fun ⟨a, b⟩ => he (h1 a b)
+    simp [he]
+    grind
+
+theorem laRwEq_sound (I : Interp) (hI : I.LeOrder) (cl s) (h : laRwEq cl = .ok s)
+    (hk : wellKinded .laRwEq cl [] = true) : s.holds I := by
+  unfold laRwEq at h
+  repeat' (split at h <;> try contradiction)
+  all_goals (cases h)
+  all_goals (simp only [Seq.holds]; intro _)
+  all_goals (simp_all [wellKinded])
+  all_goals (have := hI.antisymm; have := hI.refl; have := laRwEq_core I hI; grind [tr_def])
+
+theorem eqReflexive_hyps (cl s) (h : eqReflexive cl = .ok s) : s.hyps = [] := by
+  unfold eqReflexive at h
+  rule_hyps h
+
+theorem laDisequality_hyps (cl s) (h : laDisequality cl = .ok s) : s.hyps = [] := by
+  unfold laDisequality at h
+  rule_hyps h
+
+theorem laRwEq_hyps (cl s) (h : laRwEq cl = .ok s) : s.hyps = [] := by
+  unfold laRwEq at h
+  rule_hyps h
+
 end Holpy.C18
